@@ -83,6 +83,9 @@ def run(ctx):
         # the candidate lists the clauses are built from are the provider's (filter flag / map agreement, memoised under the right key)
         mech.memo_check(ctx, "candidate-lists", crate, crs, tag)
         mech.filter_siblings(ctx, crate, crs, tag, rule="candidate-lists")
+        import c12, c14
+        ctx.guard("result-must-use" + tag, c12.results_used, ctx, crate, tag)     # an interrupted run is never presented as a solution
+        ctx.guard("soft-loop" + tag, c14.soft_loop, ctx, crate, crs, tag)
 
 
 # ------------------------------------------------------------------------------------------------
